@@ -47,11 +47,13 @@ def regenerate_src():
             OS = srcobj.ObjTranslator(T, "ASAM::CMP::Decoder::SegmentedPacket")
             OS.run()
             OS.run_ctors()
+            OD = srcobj.ObjTranslator(T, "ASAM::CMP::Decoder", elem=OS)
+            OD.run()
             otext = ("/- GENERATED on every run by vlib/srcobj.py from the typed clang AST of /repo/src/encoder.cpp, packet.cpp and decoder.cpp — do not edit. -/\n"
                      "import AsamCmp.GeneratedSrc\nimport AsamCmp.Src.Obj\nset_option linter.unusedVariables false\nnamespace AsamCmp.SrcGen\n"
-                     "open AsamCmp AsamCmp.Src\n\n" + OT.emit() + "\n" + OP.emit() + "\n" + OS.emit() + "\nend AsamCmp.SrcGen\n")
-            note += "; GeneratedSrcObj.lean: %d Encoder, %d Packet, %d Decoder::SegmentedPacket methods translated as state transformers (%d / %d / %d not)" % (
-                len(OT.order), len(OP.order), len(OS.order), len(OT.failed), len(OP.failed), len(OS.failed))
+                     "open AsamCmp AsamCmp.Src\n\n" + OT.emit() + "\n" + OP.emit() + "\n" + OS.emit() + "\n" + OD.emit() + "\nend AsamCmp.SrcGen\n")
+            note += "; GeneratedSrcObj.lean: %d Encoder, %d Packet, %d Decoder::SegmentedPacket, %d Decoder methods translated as state transformers (%d / %d / %d / %d not)" % (
+                len(OT.order), len(OP.order), len(OS.order), len(OD.order), len(OT.failed), len(OP.failed), len(OS.failed), len(OD.failed))
         except srctrans.Untranslatable as e:
             otext = "/- GENERATED: the object translator could not run: %s -/\nimport AsamCmp.Src.Obj\nnamespace AsamCmp.SrcGen\nend AsamCmp.SrcGen\n" % str(e).replace("-/", "- /")[:400]
             note += "; GeneratedSrcObj.lean: object translator failed (%s)" % str(e)[:120]
